@@ -241,6 +241,9 @@ func Core() []string {
 	for _, s := range KeywordIdents() {
 		add(s)
 	}
+	for _, s := range ChildAsField() {
+		add(s)
+	}
 	// constants of every kind in one program (for dump/load)
 	add(`def k "nm" { i = 42; n = 0 - 42; big = 9223372036854775807; f = 2.5; g = 1e21; h = 5e-324; s = "str"; e = ""; t = true; u = false; z = nil; def in { q = i } }; bind k -> struct`)
 	coreCache = out
@@ -467,6 +470,42 @@ func KeywordIdents() []string {
 				"def b { "+k+" = 3; g = "+k+" * 2; print "+k+" }",
 				"def "+k+" \""+k+"\" { x = 1; t = TYPE }\nbind "+k+" -> struct",
 			)
+		}
+	}
+	return out
+}
+
+// ChildAsField: a closed child block is an entry of its parent's Fields like any other field: a name that was
+// resolved in a farther ancestor must resolve to the nearer child once that child is closed (and only then,
+// and only for a nameless child, whose key is its type).
+func ChildAsField() []string {
+	var out []string
+	for _, holder := range []string{"o", "m", "both", "none"} {
+		for _, readBefore := range []bool{false, true} {
+			for _, child := range []string{"def srv { p = 2 }", "def srv \"x\" { p = 2 }", "def srv { p = 2; def srv { q = 3 } }", "srv = 5"} {
+				src := "def o {\n"
+				if holder == "o" || holder == "both" {
+					src += "srv = 1\n"
+				}
+				src += "def m {\n"
+				if holder == "m" || holder == "both" {
+					src += "srv = 10\n"
+				}
+				src += "def b {\n"
+				if readBefore && holder != "none" {
+					src += "before = srv\n"
+				}
+				src += child + "\n"
+				src += "after = srv\n"
+				src += "def leaf { deep = srv; deeper = deep }\n"
+				src += "again = srv\n"
+				src += "}\n"
+				if holder != "none" {
+					src += "later = srv\n"
+				}
+				src += "}\n}"
+				out = append(out, src)
+			}
 		}
 	}
 	return out
